@@ -798,7 +798,15 @@ func validateLeaseSet2Inputs(
 	if err := validateEncryptionKeyInputs(encryptionKeys); err != nil {
 		return err
 	}
-	return validateLeaseInputs(leases)
+	if err := validateLeaseInputs(leases); err != nil {
+		return err
+	}
+	// Everything Validate() rejects is rejected here as well (reserved flag bits, key
+	// length not matching a known key type), so a constructed LeaseSet2 always validates.
+	if err := validateEncryptionKeys(encryptionKeys); err != nil {
+		return err
+	}
+	return validateReservedFlagsAndLeases(flags, leases)
 }
 
 // validateDestinationSize validates that the destination meets the minimum size requirement.
